@@ -418,7 +418,10 @@ def replay_times_attrs(kind, defined, values):
             f[key] = ArchiveTimestamp(v) if kind == "times" else v
         fi.files.append(f)
     b = io.BytesIO()
-    fi.write(b)
+    try:
+        fi.write(b)
+    except Exception as e:  # noqa
+        return True, "FilesInfo.write raised %r on a legal set of members (defined=%s)" % (e, defined)
     raw = b.getvalue()
     try:
         back = ai.FilesInfo.retrieve(io.BytesIO(raw[1:]))
